@@ -38,4 +38,14 @@ uint64_t vh_rand(uint64_t *state);       // splitmix64 for workload generation (
 void vh_fill(uint64_t *state, uint8_t *p, size_t n);
 uint8_t *vh_exact(size_t n);             // malloc'ed exactly n bytes (n==0 -> 1 byte region, returned pointer at its end)
 int vh_unhex(const char *s, uint8_t *out, size_t max);
+
+
+// ---- key=value script lines ----
+typedef struct { char *k[64]; char *v[64]; int n; } KV;
+void kv_parse(KV *kv, char *line);                       // destructive split on whitespace and '='
+const char *kv_str(const KV *kv, const char *k, const char *dflt);
+long kv_int(const KV *kv, const char *k, long dflt);
+uint8_t *kv_hex(const KV *kv, const char *k, size_t *len); // malloc'ed exact-size buffer ("-" or missing -> len 0)
+int kv_has(const KV *kv, const char *k);
+int kv_ints(const KV *kv, const char *k, long *out, int max); // comma separated list
 #endif
